@@ -1,8 +1,10 @@
 import Verif.Drv.ExitCode
+import Verif.Drv.Engine
 
 /-- model name → request handler (one request line in, one answer line out). -/
 def models : List (String × (String → String)) :=
-  [("exit", Verif.Drv.ExitCode.step)]
+  [("exit", Verif.Drv.ExitCode.step),
+   ("engine", Verif.Drv.Engine.step)]
 
 partial def loop (h : IO.FS.Stream) (out : IO.FS.Stream) (f : String → String) : IO Unit := do
   let line ← h.getLine
